@@ -11,6 +11,7 @@ UNITS[name] = dict(module=..., rlimit=..., timeout=...)
 
 UNITS = {
     'codec_mut': dict(module='units.codec_mut', rlimit=150, timeout=300),
+    'hash': dict(module='units.hash', rlimit=50, timeout=300),
     'rollback': dict(module='units.rollback', rlimit=50, timeout=300),
 }
 
@@ -29,6 +30,10 @@ PROPS = {
     ),
     'C15': dict(
         units=[('rollback', r'(rollbacks|C15|Frame::len)')],
+        kani=[],
+    ),
+    'C11': dict(
+        units=[('hash', r'(HashingReader|format_hash|C11|new|into_digest|seek|read)')],
         kani=[],
     ),
     'C13': dict(
